@@ -67,9 +67,18 @@ try:
         print(out0[-1500:] if rc0 else ""); print(out1[-800:] if rc1 == 0 else ""); print(missing[:5])
         sys.exit(1)
     # our check against the patched tree (worktree as repo)
-    rc, out = sh("DFS_NO_EVIDENCE=1 /verif/bin/dfscheck -property %s -repo %s -verif %s/_v" % (prop, WT, WT), cwd="/verif")
-    viol = [l for l in out.splitlines() if "] violated in" in l or "] undecided in" in l]
-    print("check %s on patched tree: exit %d; %s" % (prop, rc, viol[:3]))
+    props = prop.split(",")
+    prop = props[0]
+    os.makedirs(WT + "/_v", exist_ok=True)
+    shutil.copy("/verif/known_findings.json", WT + "/_v/known_findings.json")
+    rc, viol, by = 0, [], []
+    for pp in props:
+        rc1, out = sh("DFS_NO_EVIDENCE=1 /verif/bin/dfscheck -property %s -repo %s -verif %s/_v" % (pp, WT, WT), cwd="/verif")
+        v = [l for l in out.splitlines() if "] violated in" in l or "] undecided in" in l]
+        print("check %s on patched tree: exit %d; %s" % (pp, rc1, v[:3]))
+        if rc1 == 1:
+            rc = 1; by.append(pp)
+        viol += v
     out_dir = "/verif/seeded/%s" % sid
     os.makedirs(out_dir, exist_ok=True)
     shutil.copy(patch, os.path.join(out_dir, "patch.diff"))
@@ -81,7 +90,7 @@ try:
         shutil.copy(demo, os.path.join(out_dir, os.path.basename(demo)))
     meta = {"id": sid, "property": prop, "needs_to_manifest": needs, "demo_location": where if not os.path.isdir(demo) else "standalone module (rewrite the replace line to the tree under test)",
             "what_was_run": ran, "repo_head": subprocess.check_output("git -C /repo rev-parse --short HEAD", shell=True, text=True).strip(),
-            "detected_by_check": rc == 1, "check_exit": rc, "check_reports": viol[:5]}
+            "detected_by_check": rc == 1, "detected_by": by, "check_reports": viol[:5]}
     json.dump(meta, open(os.path.join(out_dir, "meta.json"), "w"), indent=1)
 finally:
     subprocess.run("git -C /repo worktree remove --force %s" % WT, shell=True, stdout=subprocess.DEVNULL, stderr=subprocess.DEVNULL)
